@@ -329,6 +329,80 @@ var c11Edits = []c11Edit{
 	}},
 }
 
+// isConstLike: built from literals and named constants only
+func isConstLike(e *wexpr) bool {
+	switch e.k {
+	case "lit", "aint":
+		return true
+	case "var":
+		return e.konst
+	case "idx", "callfn", "deref", "addr", "arrlen", "field":
+		return false
+	}
+	if len(e.args) == 0 {
+		return e.konst
+	}
+	for _, a := range e.args {
+		if !isConstLike(a) {
+			return false
+		}
+	}
+	return true
+}
+
+// editedOnlyInDeadRHS: every expression node that did not exist before the edit lies in the right operand of a
+// short-circuit operator whose left operand is a constant expression.
+func editedOnlyInDeadRHS(m *wmodule, before map[*wexpr]bool) bool {
+	found, outside := false, false
+	var walk func(e *wexpr, dead bool)
+	walk = func(e *wexpr, dead bool) {
+		if e == nil {
+			return
+		}
+		if !before[e] {
+			found = true
+			if !dead {
+				outside = true
+			}
+			return // a new subtree: judged at its root
+		}
+		for i, a := range e.args {
+			d := dead
+			if e.k == "bin" && (e.op == "&&" || e.op == "||") && i == 1 && isConstLike(e.args[0]) {
+				d = true
+			}
+			walk(a, d)
+		}
+	}
+	var ws func(l []*wstmt)
+	ws = func(l []*wstmt) {
+		for _, st := range l {
+			walk(st.e, false)
+			walk(st.brk, false)
+			if st.lhs != nil {
+				for i := range st.lhs.args {
+					if i > 0 { // index expressions inside lvalues (as in exprSlots)
+						walk(st.lhs.args[i], false)
+					}
+				}
+			}
+			if st.init != nil {
+				walk(st.init.e, false)
+			}
+			ws(st.body)
+			ws(st.els)
+			for _, cs := range st.cases {
+				ws(cs.body)
+			}
+		}
+	}
+	for _, f := range m.funcs {
+		ws(f.body)
+	}
+	ws(m.entry.body)
+	return found && !outside
+}
+
 func cmdC11(c *ctx) {
 	for i := 0; i < c.n; i++ {
 		o := defaultGenOpts(c)
@@ -343,13 +417,23 @@ func cmdC11(c *ctx) {
 		var src string
 		expLine, expCol := 0, 0
 		marker := ""
+		site := ""
 		if ed.apply != nil {
+			before := map[*wexpr]bool{}
+			for _, p := range m.exprSlots() {
+				before[*p] = true
+			}
 			mk, ok := ed.apply(c, m)
 			if !ok {
 				c.count("edit-not-applicable:" + ed.rule)
 				continue
 			}
 			marker = mk
+			if editedOnlyInDeadRHS(m, before) {
+				// the rule is broken only inside the right operand of && / || whose left operand is a constant expression
+				site = " site=short-circuit-rhs"
+				c.count("site:short-circuit-rhs")
+			}
 			src = mustUse + m.wgsl() + "fn late_zz(a: u32, b: u32) -> u32 {\n  return a + b;\n}\n"
 		} else {
 			valid := mustUse + m.wgsl() + "fn late_zz(a: u32, b: u32) -> u32 {\n  return a + b;\n}\n"
@@ -446,7 +530,7 @@ func cmdC11(c *ctx) {
 				}
 			}
 		}
-		c.line("cases.txt", fmt.Sprintf("(c11 %s)", ed.rule))
+		c.line("cases.txt", fmt.Sprintf("(c11 %s%s)", ed.rule, site))
 		c.line("impl.txt", fmt.Sprintf("%s %s %s | %s", verdict, pos, where, oneLine(msg)))
 		c.line("src.txt", q(src))
 	}
